@@ -35,10 +35,11 @@ WATCHDOG = 10
 WATCHDOG_CONFIRM = 60
 WORKERS = 4
 CORPUS = os.path.join(vlib.ROOT, "corpus", "C13")
-FLAGS = ["snt", "dct", "link", "nest", "fmt", "tag", "dtov", "rtype", "dim", "short", "sizes", "rad", "lfile", "lpath", "lnosep"]      # order of AdfCodec.fixes
+FLAGS = ["snt", "dct", "link", "nest", "fmt", "tag", "dtov", "rtype", "dim", "short", "sizes", "rad", "lfile", "lpath", "lnosep", "ver"]      # order of AdfCodec.fixes
 FLAG_FIX = {"snt": "01", "dct": "02", "link": "03", "nest": "04", "fmt": "05", "tag": "06", "dtov": "07", "rtype": "08",
             "dim": "11", "short": "13", "sizes": "14", "rad": "15",
-            "lfile": "03", "lpath": "03", "lnosep": "03"}           # the three output-side guards of repair 03, one switch each
+            "lfile": "03", "lpath": "03", "lnosep": "03",           # the three output-side guards of repair 03, one switch each
+            "ver": "20"}
 KNOWN_DEFECT_KEY = "adf-subnode-table-count-vs-chunk-length"
 _CFG = {"bits": "0" * len(FLAGS)}
 
@@ -143,7 +144,11 @@ def lib_frames(frames):
 SITE_KEY = {"OOBW1": KNOWN_DEFECT_KEY, "OOBR1": "adf:num-sub-nodes-exceeds-entries-field", "OOBW2": "adf:data-chunk-table-count-vs-chunk-length",
             "OOBW3": "adf:link-payload-longer-than-buffer", "OOBW4": "adf:link-datatype-more-than-one-token",
             "OOBR5": "adf:node-header-tag-scan-past-buffer", "OOBW8": "adf:link-file-part-longer-than-chase-buffer",
+            "OOBW9": "adf:database-version-scan-past-what-field",
             "OutOfFuel": "adf:link-path-through-itself-unbounded-recursion"}
+
+
+SIBLING_KEYS = {"adf:block-read-incomplete-data-zero-fill-counts-file-bytes", "adf:array-datatype-block-read-into-2-char-typed-buffer"}
 
 
 def root_cause(backend, mode, outcome, lines, frames, umsg, fclass, mverdict=None):
@@ -171,6 +176,8 @@ def root_cause(backend, mode, outcome, lines, frames, umsg, fclass, mverdict=Non
         kind = "ubsan-" + re.sub(r"[^a-z]+", "-", re.sub(r"-?\d+", "", (umsg or outcome[6:]).split(" for type")[0].lower())).strip("-")[:40]
     else:
         kind = outcome.replace(":", "")
+    if "get_str_att" in S and kind.endswith("buffer-overflow"):
+        return "hdf5:string-attribute-longer-than-buffer"      # H5Aread fills in what the file says there is
     if any(re.match(r"H5[A-Z]*_", f) for f in fns[:1]) or (frames and "libhdf5" in frames[0][1]):
         return "hdf5-lib:%s@%s" % (kind, top)
     if backend == "adf":
@@ -180,6 +187,16 @@ def root_cause(backend, mode, outcome, lines, frames, umsg, fclass, mverdict=Non
             return "adf:num-sub-nodes-exceeds-entries-field"
         if "ADFI_read_data_chunk_table" in S and kind == "heap-buffer-overflow":
             return "adf:data-chunk-table-count-vs-chunk-length"
+        if "ADF_Database_Version" in S and kind.endswith("buffer-overflow"):
+            return "adf:database-version-scan-past-what-field"
+        if kind == "heap-buffer-overflow" and top == "ADF_Read_Block_Data" and fclass != "node.data_type" and "array-type" not in fclass:
+            return "adf:block-read-incomplete-data-zero-fill-counts-file-bytes"
+        if kind == "heap-buffer-overflow" and S & {"ADF_Read_Block_Data", "ADF_Read_Data"} and \
+                (fclass in ("node.data_type", "witness") or "array-type" in fclass):
+            return "adf:array-datatype-block-read-into-2-char-typed-buffer" if "ADF_Read_Block_Data" in S else \
+                "adf:compound-datatype-read-into-2-char-typed-buffer"
+        if kind == "heap-buffer-overflow" and "cgi_read_int_data" in S:
+            return "mll:int-data-node-larger-than-expected-count"
         if kind == "stack-overflow" and "ADFI_chase_link" in S and "ADF_Get_Node_ID" in S:
             return "adf:link-path-through-itself-unbounded-recursion"
         if S & {"ADF_Get_Link_Path", "ADF_Link_Size"}:
@@ -219,10 +236,10 @@ def root_cause(backend, mode, outcome, lines, frames, umsg, fclass, mverdict=Non
         if kind.startswith("ubsan-signed-integer-overflow") and top in ("cgio_compute_data_size", "cgio_get_data_size"):
             neg = bool(re.search(r"overflow: -\d+ \*", umsg or ""))
             return "adf:dimension-value-exceeds-cgsize" if neg else "cgio:data-size-product-overflow"
-        if kind == "heap-buffer-overflow" and top == "ADF_Read_All_Data" and fclass != "node.data_type":
+        if kind == "heap-buffer-overflow" and top == "ADF_Read_All_Data" and fclass != "node.data_type" and "array-type" not in fclass:
             return "adf:incomplete-data-zero-fill-counts-file-bytes"
         if kind == "heap-buffer-overflow" and "ADF_Read_All_Data" in S:
-            if fclass == "node.data_type":
+            if fclass == "node.data_type" or "array-type" in fclass:
                 return "adf:compound-datatype-read-into-2-char-typed-buffer"
             if fclass in ("fileheader.sizeof", "node.header-sizeof-int-dim-halved"):
                 return "adf:header-type-size-vs-untranslated-copy"
@@ -326,6 +343,13 @@ class AdfFile:
                            ("minor-FF", (26, b"FF")), ("minor-0G", (26, b"0G")), ("minor-00", (26, b"00")), ("old-style->", (28, b">")),
                            ("magic-broken", (4, b"XDF")), ("nul-inside", (10, b"\0")), ("first-byte", (0, b"@"))]:
             M.append(("fileheader.what=" + lab, "version", [patch]))
+        # the what field is 32 characters without a terminator: its closing '>' is what ADF_Database_Version looks for
+        M.append(("fileheader.what=end->X", "version-core", [(31, b"X")]))
+        M.append(("fileheader.what=end->nul", "version", [(31, b"\0")]))
+        M.append(("fileheader.what=end-moved-to-30", "version", [(30, b">")]))
+        M.append(("fileheader.what=end->X,>-in-creation-date", "version", [(31, b"X"), (40, b">")]))
+        M.append(("fileheader.what=end->X,nul-in-creation-date", "version", [(31, b"X"), (45, b"\0")]))
+        M.append(("fileheader.what=no->-up-to-format", "version", [(31, b"X"), (60, b">")]))
         for pos in (100, 101):
             for v in (b"B", b"L", b"C", b"N", b"X", b"\0", b"\xff", b"b"):
                 M.append(("fileheader.format[%d]=%r" % (pos, v), "format", [(pos, v)]))
@@ -494,6 +518,32 @@ class AdfFile:
                 if dlen >= 2:
                     M.append(("node@%d: header sizeof(int)=8, dim halved" % p, "structural",
                               [(fh[11][0], b"08"), (o0, (dlen // 2).to_bytes(8, "little" if int(self.attr["fmt"]) == 76 else "big"))]))
+            # the same bytes described another way: a client that sizes its buffer from one description and reads by the other
+            enc = (lambda v: v.to_bytes(8, "little" if int(self.attr["fmt"]) == 76 else "big")) if not self.old else (lambda v: b"%08X" % v)
+            rd = (lambda o: int.from_bytes(d[o:o + 8], "little" if int(self.attr["fmt"]) == 76 else "big")) if not self.old else (lambda o: int(d[o:o + 8], 16))
+            ty = bytes.fromhex(nd["type"])
+            if int(nd["nchunks"]) == 1 and int(nd["ndims"]) == 1 and ty in (b"I4", b"I8", b"R4", b"R8", b"U4", b"U8", b"C1", b"B1"):
+                o0 = p + nf[8][0]
+                try:
+                    dlen = rd(o0)
+                except ValueError:
+                    dlen = 0
+                for k in sorted(set([2, 4, dlen])):
+                    if 2 <= k <= dlen < (1 << 20) and dlen % k == 0:
+                        M.append(("node@%d: array type, dim divided" % p, "arraytype",
+                                  [(p + nf[6][0], (ty + b"[%d]" % k).ljust(32, b" ")), (o0, enc(dlen // k))]))
+            if int(nd["ndims"]) == 2:
+                o0, o1 = p + nf[8][0], p + nf[9][0]
+                try:
+                    a, b = rd(o0), rd(o1)
+                except ValueError:
+                    a = b = 0
+                if a > 0 and b > 0:
+                    if a != b:
+                        M.append(("node@%d: dims swapped" % p, "dimshape-core", [(o0, enc(b)), (o1, enc(a))]))
+                    M.append(("node@%d: dims flattened" % p, "dimshape", [(p + nf[7][0], b"01"), (o0, enc(a * b))]))
+                    M.append(("node@%d: dims all in the first" % p, "dimshape", [(o0, enc(a * b)), (o1, enc(1))]))
+                    M.append(("node@%d: dims all in the second" % p, "dimshape", [(o0, enc(1)), (o1, enc(a * b))]))
         return M
 
     def decode_ptr(self, b12):
@@ -534,7 +584,7 @@ class Impl:
                 return r2
         return r
 
-    def run(self, idx, data, backend, cwd, walk=True, check=True):
+    def run(self, idx, data, backend, cwd, walk=True, check=True, modes=None):
         """-> dict(mode -> (lines, outcome)), hash_ok"""
         path = os.path.join(cwd, "mut_%d.%s" % (idx, "adf" if backend == "adf" else "hdf"))
         open(path, "wb").write(data)
@@ -542,7 +592,7 @@ class Impl:
         res = {}
         if walk:
             res["walk"] = self.one(self.adf, ["walk", path, str(FUEL)], cwd)
-        for mode in (("check",) if check else ()) + ("cgio", "mll"):
+        for mode in modes or ((("check",) if check else ()) + ("cgio", "mll")):
             res[mode] = self.one(self.io, [mode, path], cwd)
         same = sha(path) == h0
         try:
@@ -562,6 +612,7 @@ CRASH_EXPECTED = {"OOBW1": ("asan:heap-buffer-overflow",), "OOBW2": ("asan:heap-
                   "OOBR5": ("asan:stack-buffer-overflow", "asan:dynamic-stack-buffer-overflow"),
                   "OOBW6": ("asan:negative-size-param", "asan:SEGV", "signal:11"),
                   "OOBW7": ("asan:heap-buffer-overflow",), "OOBW8": ("asan:stack-buffer-overflow",),
+                  "OOBW9": ("asan:stack-buffer-overflow",),
                   "OOBR1": ("asan:heap-buffer-overflow",), "OOBR2": ("asan:heap-buffer-overflow",),
                   "Abort": ("signal:6",), "UB": ("ubsan:",),
                   "OutOfFuel": ("asan:stack-overflow", "timeout", "signal:11", "asan:SEGV")}
@@ -657,7 +708,9 @@ def run(ck):
                 frames, umsg = ([], None) if outcome == "timeout" else crash_report(exe, args, cwd)
             else:
                 frames, umsg = crash_report_cached((backend, mode, outcome, field_class(desc), mv), exe, args, cwd)
-            key = force_key or root_cause(backend, mode, outcome, lines, frames, umsg, field_class(desc), mv)
+            key = root_cause(backend, mode, outcome, lines, frames, umsg, field_class(desc), mv)
+            if force_key and key not in SIBLING_KEYS:
+                key = force_key                  # a stored witness names its defect; a sibling defect it also reaches keeps its own name
             os.unlink(path)
             rp = {"what": desc, "base_file": base, "backend": backend, "mode": mode, "outcome": outcome, "last_lines": lines[-3:],
                   "library_frames": lib_frames(frames)[:8],
@@ -719,7 +772,7 @@ def run(ck):
     for w in index:
         wdata[w["file"]] = open(os.path.join(CORPUS, w["file"]), "rb").read()
         open(os.path.join(wdir, w["file"]), "wb").write(wdata[w["file"]])
-    for n in adf_names:          # witnesses derived from m_unstr.adf reach m_struct.adf through links
+    for n in adf_names + hdf_names:   # witnesses derived from m_unstr.adf / h_small.hdf reach other files through links
         open(os.path.join(wdir, n), "wb").write(open(os.path.join(cdir, n), "rb").read())
     # the theorems speak about AdfWalk.wit_*: the corpus files must be those byte strings
     mw = [w for w in index if w["model_witness"]]
@@ -741,7 +794,7 @@ def run(ck):
 
     state, how = {}, {}
     # a switch whose witness is masked by another repair is looked at after that one
-    for fl in ["snt", "dct", "link", "lfile", "lpath", "lnosep", "nest", "fmt", "tag", "rtype", "dtov", "dim", "sizes", "rad", "short"]:
+    for fl in ["snt", "dct", "link", "lfile", "lpath", "lnosep", "nest", "fmt", "tag", "rtype", "dtov", "dim", "sizes", "rad", "short", "ver"]:
         ws = [w for w in mw if w["flag"] == fl]
         s0 = dict(state); s0[fl] = False
         s1 = dict(state); s1[fl] = True
@@ -786,13 +839,14 @@ def run(ck):
             ck.cov["traces_validated_against_impl"] += 1
             if st == "DIVERGE":
                 corr_broken.append({"level": "witness", "witness": f, "detail": detail})
-        res2, same = impl.run(9000 + k, data, "adf", wdir, walk=bool(w["model_witness"]) and w["model_witness"] != "cycle")
+        wb = w.get("backend", "adf")
+        res2, same = impl.run(9000 + k, data, wb, wdir, walk=bool(w["model_witness"]) and w["model_witness"] != "cycle")
         if w["model_witness"] == "cycle":
             res2.pop("walk", None)
         if f == "wit_oobw.adf":
             # the section-6 #12 defect exactly as stated: open read-only, ADF_Get_Node_ID(root, "B")
             res2["probe"] = vlib.run_impl(adf_exe, "", args=["probe", os.path.join(wdir, f), "B"], timeout=WATCHDOG, cwd=wdir)
-        bad = oracle("witness " + f + ": " + w["what"], "adf", f, data, dict((m, r) for m, r in res2.items() if m != "probe"), same, wdir,
+        bad = oracle("witness " + f + ": " + w["what"], wb, f, data, dict((m, r) for m, r in res2.items() if m != "probe"), same, wdir,
                      9000 + k, {"witness": f, "repair": "notes/C13-fixes/%s-*.diff" % w["fix"] if w["fix"] else None}, force_key=w["key"])
         if "probe" in res2 and res2["probe"][1] != "ok":
             bad = True
@@ -982,15 +1036,40 @@ def run(ck):
                 htasks.append((name, len(htasks), "byte %d (near %r at %d) := 0x%02x" % (off, mk.decode("latin1"), k, v), "hdf5-attribute", bytes(b)))
                 budget -= 1
 
+    # string attributes of every length around the buffers that receive them (char[3] type, char[33] name / label, ...): the
+    # harness rewrites the attribute with raw HDF5 calls, the library then reads the file
+    edge = [1, 2, 3, 4, 31, 32, 33, 34, 63, 64, 65, 255, 256, 257, 300]
+    hmade = {}
+    for name, grp, lens in (("h_small.hdf", "/MarkNodeAAAA", range(1, 301) if big else edge),
+                            ("h_mll.hdf", "/MarkBaseFFFF/MarkZoneGGGG", edge if big else [3, 33, 65, 300])):
+        if name not in hdf_names:
+            continue
+        for attr in ("name", "label", "type", "flags"):
+            for L in lens:
+                htasks.append((name, len(htasks), "h5attr.%s=%d characters at %s" % (attr, L, grp), "hdf5-string-attribute",
+                               (name, grp, attr, L), None if L in edge else ("cgio",)))
+
     def himpl_job(t):
-        return t[1], impl.run(100000 + t[1], t[4], "hdf5", hd, walk=False)
+        data = t[4]
+        if isinstance(data, tuple):
+            name, grp, attr, L = data
+            tmp = os.path.join(hd, "attr_%d.hdf" % t[1])
+            open(tmp, "wb").write(open(os.path.join(cdir, name), "rb").read())
+            l, o = vlib.run_impl(io_exe, "", args=["h5attr", tmp, grp, attr, str(L)], timeout=WATCHDOG, cwd=hd)
+            data = open(tmp, "rb").read()
+            os.unlink(tmp)
+            if o != "ok" or "h5attr done" not in l:
+                raise vlib.Infra("h5attr failed: %s %s" % (o, l[-2:]))
+            hmade[t[1]] = data
+        return t[1], impl.run(100000 + t[1], data, "hdf5", hd, walk=False, modes=t[5] if len(t) > 5 else None)
 
     t0 = time.time()
     with ThreadPoolExecutor(WORKERS) as ex:
         hres = dict(f.result() for f in [ex.submit(himpl_job, t) for t in htasks])
     stats["hdf5_phase_s"] = round(time.time() - t0, 1)
     for t in htasks:
-        name, idx, desc, cls, data = t
+        name, idx, desc, cls, data = t[:5]
+        data = hmade.get(idx, data)
         res, same = hres[idx]
         stats["classes"][cls] = stats["classes"].get(cls, 0) + 1
         rej = any(any(x.startswith("open err") or x.startswith("e ") or "rc=" in x and "rc=0" not in x for x in lines) for lines, _ in res.values())
